@@ -37,4 +37,16 @@ CLAIMS = {
   technique="offline history checker (multiset, per-pipe order, counters at quiescence) over thousands of short ReadyPipeQueue histories with seeded delays at hooked schedule points; gate-forced check/notified() windows for the Notify users",
   level_text="Held on every history explored: no lost, duplicated or reordered item, counters consistent at quiescence, no consumer asleep with a non-empty pipe outside the ready list; the two Notify waiters complete when the condition becomes true inside the forced window. Exploration of sampled interleavings with widened windows, not enumeration.",
   level_note="The quantifier 'all interleavings' is out of reach for this family; evidence reports how many distinct hook-hit orders were sampled."),
+ "C01": dict(
+  technique="offline exactly-once / order / integrity checker over client-boundary histories with self-describing payloads, across randomized socket pairs, transports, HWM / batching options, pacing and first-send moments; session batching branch counters as coverage evidence",
+  level_text="Held (apart from the recorded DEALER-egress findings) on every history explored: each accepted message received exactly once, byte-exact, in per-sender order while the monitor showed the connection up. Exploration; sizes up to 1 MiB and HWM x batch combinations are sampled, not swept.",
+  level_note="'accepted' = send() returned Ok; loss = still missing after 6 s without progress; scenarios whose monitor reports a disconnect are discarded and counted; a send that stays blocked with nothing lost is left to C14."),
+ "C12": dict(
+  technique="reference-model differential monitor on the real SubscriptionTrie with an exhaustive probe set after every operation; concurrent matcher/mutator race monitor with a delay point; end-to-end PUB/SUB history checker with sentinel-delimited quiescent points; publisher-promptness monitor with stalled raw subscribers",
+  level_text="Held (apart from the recorded publisher-blocking finding) on every history explored: matches() equals the reference multiset on all 341 probes after every op, never true for a never-covered family under concurrency, SUBs receive exactly the matching publications in order. Exploration with an exhaustive probe set.",
+  level_note="Subscription changes are applied only at quiescent points so that 'when the message reaches it' is unambiguous; promptness bound 1 s per send."),
+ "C13": dict(
+  technique="property-level invariant monitor over the real LoadBalancer/Orchestrator driven with scripted connections under a paused clock (fairness, readiness patterns, churn) + end-to-end PUSH->PULLs with a stalled raw peer",
+  level_text="Held (apart from the recorded wait-on-one-full-peer finding) on every history explored: exactly one peer per accepted message, round-robin spread <= 1 + extra sender tasks with all peers ready, no starvation, no duplicate around add/remove. Exploration.",
+  level_note="Invariants, not an exact cursor model (unequal shares among partially ready peers are legitimate); the first-peer waiter race is decided under C08."),
 }
